@@ -9,7 +9,7 @@ from .. import gen as G
 NAMES = ["src", "lib", "pkg", "sub", "deep", "er", "x", "y", "z", "a", "b", "c", "d", "K", "m", "w", "main",
          "tests", "test", "build", "dist", "venv", "node_modules", "t", "p", "i", "v"]
 EXTS = ["py", "js", "ts", "java", "c", "cpp", "cs", "txt", "h", "json"]
-SPELLINGS = ("dot", "rel_parent", "abs", "dotdot", "abs_dotdot", "rel_outside", "trailing")
+SPELLINGS = ("dot", "rel_parent", "abs", "dotdot", "abs_dotdot", "rel_outside", "trailing", "symlink", "symlink_abs")
 
 
 def pattern(rng, placed):
